@@ -138,14 +138,57 @@ fn record(ctx: &mut Ctx, fam: &str, entry: &str, case: Value, size: usize, degen
 
 fn check_word(word: &[u8], alpha: &[X], ctx: &mut Ctx) {
     let x = decode(word, alpha);
+    check_series("kernels", word, x, ctx)
+}
+
+/// long structured series on the instrumented containers (DESIGN 5.14): windows and k around the sizes
+/// where a narrow index type or a size-dependent path would change the accesses
+fn kernels_long(thorough: bool, threads: usize) -> Ctx {
+    let lens: Vec<usize> = if thorough { vec![40, 270] } else { vec![40] };
+    let mut items: Vec<(String, Vec<X>)> = vec![];
+    for len in lens {
+        // a third of the shapes: the access pattern depends on nulls and ties, not on the values
+        items.extend(rollcheck::structured_shapes(len, true).into_iter().enumerate().filter(|(i, _)| i % 3 == 0).map(|(_, s)| s));
+        items.push((format!("ramp/{len}"), (0..len).map(|i| Some(i as f64)).collect()));
+        items.push((format!("ramp-down/{len}"), (0..len).map(|i| Some((len - i) as f64)).collect()));
+    }
+    par_items(&items, threads, |(_l, x), ctx| {
+        ctx.states += 1;
+        check_series("kernels-long", &[], x.clone(), ctx)
+    })
+}
+
+fn check_series(fam: &str, word: &[u8], x: Vec<X>, ctx: &mut Ctx) {
     let len = x.len();
-    let fam = "kernels";
     ctx.fam(fam).states += 1;
-    ctx.nontrivial(fam, hash_bytes(word));
+    ctx.nontrivial(fam, mix(hash_bytes(word), hash_u64s(&x.iter().map(|v| v.map_or(7, |a| a.to_bits())).collect::<Vec<_>>())));
     let null_free = x.iter().all(|v| v.is_some());
-    for w in 0..=len + 3 {
+    let long = len > 16;
+    let ws: Vec<usize> = if long {
+        let mut v = vec![0usize, 1, 2, 16, 17, 255, 256, 257, len - 1, len, len + 1, len + 3];
+        v.retain(|w| *w <= len + 3);
+        v.sort();
+        v.dedup();
+        v
+    } else {
+        (0..=len + 3).collect()
+    };
+    let ks: Vec<usize> = if long {
+        let mut v = vec![0usize, 1, 15, 16, 17, len / 2, len - 1, len, len + 2];
+        v.sort();
+        v.dedup();
+        v
+    } else {
+        (0..=len + 2).collect()
+    };
+    for w in ws {
         let mut mps: Vec<Option<usize>> = vec![None];
-        mps.extend((0..=w).map(Some));
+        if long {
+            mps.extend([Some(0), Some(1), Some(w)]);
+            mps.dedup();
+        } else {
+            mps.extend((0..=w).map(Some));
+        }
         for mp in mps {
             for input in [In::Probe, In::Vec, In::Array] {
                 for path in [Path::Ret, Path::Buf] {
@@ -190,7 +233,7 @@ fn check_word(word: &[u8], alpha: &[X], ctx: &mut Ctx) {
             }
         }
     }
-    for k in 0..=len + 2 {
+    for k in ks {
         for (name, flags) in [("vpartition", 4), ("varg_partition", 4), ("vquantile", 4)] {
             if name == "vquantile" && k > 4 {
                 continue;
@@ -244,12 +287,17 @@ fn main() {
             std::process::exit(2)
         });
         let mut ctx = Ctx::new();
-        check_word(&syms_from_json(&stored["case"]["word"]), &fam.alpha, &mut ctx);
+        if stored["case"]["family"] == "kernels-long" {
+            check_series("kernels-long", &[], word_from_json(&stored["case"]["series"]), &mut ctx);
+        } else {
+            check_word(&syms_from_json(&stored["case"]["word"]), &fam.alpha, &mut ctx);
+        }
         std::process::exit(finish_replay(&run, &stored, ctx));
     }
-    let total = explore_tree(&fam, run.threads);
+    let mut total = explore_tree(&fam, run.threads);
+    total.merge(kernels_long(!run.quick(), run.threads));
     let meta = Meta {
-        rule: "history tree of every word over {null,0,1,2}; at each word every rolling entry point (null-aware, plain, two-series), vrank, vpartition, varg_partition, vquantile, Spearman vcorr and half_life run (a) on an instrumented input container recording every uget / uslice and (b) on real Vec / Array1 inputs (fast paths), always into an instrumented output container recording every uset, via the returned and the caller-buffer path; windows 0..=len+3, every min_periods, k in 0..=len+2, second series of length len-1 / len / len+1. Oracle (monitor): no recorded fault - no index >= len, no slice outside 0<=start<=end<=len, no write outside the buffer, every slot written exactly once at assume_init. Transitions = instrumented accesses observed. Non-trivial = distinct words.".into(),
+        rule: "history tree of every word over {null,0,1,2}; at each word every rolling entry point (null-aware, plain, two-series), vrank, vpartition, varg_partition, vquantile, Spearman vcorr and half_life run (a) on an instrumented input container recording every uget / uslice and (b) on real Vec / Array1 inputs (fast paths), always into an instrumented output container recording every uset, via the returned and the caller-buffer path; windows 0..=len+3, every min_periods, k in 0..=len+2, second series of length len-1 / len / len+1. The same on long structured series (40 / 270 elements, windows 0, 1, 2, 16, 17, 255..257, len-1..len+3, k around 16 and len). Oracle (monitor): no recorded fault - no index >= len, no slice outside 0<=start<=end<=len, no write outside the buffer, every slot written exactly once at assume_init. Transitions = instrumented accesses observed. Non-trivial = distinct words.".into(),
         bounds: json!({"alphabet": json_word(&fam.alpha), "L": fam.max_len, "window": "0..=len+3", "k": "0..=len+2", "second_series_len": ["len-1", "len", "len+1"], "inputs": ["ProbeVec", "Vec", "Array1"], "paths": ["Ret", "Buf"]}),
         assumptions: vec![
             "panics are not judged here unless a fault was recorded first (clean panics on degenerate parameters are allowed by the property; other panics belong to C05/C20)".into(),
